@@ -72,6 +72,8 @@ func (cc *callCache) Take() (calls []call) {
 
 type returnValue [3]interface{}
 
+var errMalformedResult = errors.New("hprose/rpc/plugins/reverse: malformed result from the provider")
+
 func newReturnValue(index int, result interface{}, err string) (r returnValue) {
 	r[0] = index
 	r[1] = result
@@ -84,7 +86,11 @@ func (r returnValue) Index() int {
 }
 
 func (r returnValue) Value(returnType []reflect.Type) ([]interface{}, error) {
-	err := r[2].(string)
+	// the tuple was sent by the provider: its shape is checked, not assumed
+	err, ok := r[2].(string)
+	if !ok {
+		return nil, errMalformedResult
+	}
 	if err != "" {
 		return nil, errors.New(err)
 	}
@@ -100,7 +106,10 @@ func (r returnValue) Value(returnType []reflect.Type) ([]interface{}, error) {
 		}
 	default:
 		results := make([]interface{}, n)
-		values := r[1].([]interface{})
+		values, ok := r[1].([]interface{})
+		if !ok {
+			return nil, errMalformedResult
+		}
 		count := len(values)
 		for i := 0; i < n && i < count; i++ {
 			if result, err := io.Convert(values[i], returnType[i]); err != nil {
